@@ -16,11 +16,124 @@ Definition item_err (eb : ebody) (s : schema1) (d : ditem) : bool :=
    contributes; what an item contributes does not depend on the other items. *)
 Lemma content_blocks_by_item s eb :
   xc_blocks (eb_content s eb) = flat_map (item_blocks eb s) (eb_orig eb).
-Proof. Admitted.
+Proof. unfold item_blocks. apply eb_content_blocks. Qed.
 
 (* a fresh expandBody (nothing hidden) at any nesting: iteration and marks arbitrary *)
 Definition fresh (b : dbody) (fctx : ctx) (i : option iteration) (m : marks) : ebody :=
   mkEB b fctx i m [] [].
+
+(* ---- helpers: one dynamic item of a fresh body ------------------------------------------ *)
+Lemma ext_dyn_fresh b fctx i m s :
+  afind_last s_dynamic (s_blocks (extend_schema (mkEB b fctx i m [] []) s)) = Some 1.
+Proof.
+  unfold extend_schema. cbn [s_blocks eb_hblocks]. rewrite app_nil_r. apply afind_last_snoc_same.
+Qed.
+
+Lemma native_ok_dyn b fctx i m s t fe it les content :
+  native_block_ok (extend_schema (mkEB b fctx i m [] []) s) (DDynamic t fe it les content) = true.
+Proof. unfold native_block_ok. cbn [raw_header]. rewrite ext_dyn_fresh. reflexivity. Qed.
+
+Lemma expand_block1_dyn b fctx i m0 s t fe it les content n :
+  afind t (s_blocks s) = Some n ->
+  expand_block1 (mkEB b fctx i m0 [] []) s false (DDynamic t fe it les content) =
+  match decode_spec (mkEB b fctx i m0 [] []) n t fe it les with
+  | SpecErr u => ([], true, u)
+  | SpecOk each_val iname =>
+      let '(fv, m) := unmark each_val in
+      if is_known fv then
+        xres_concat (map (fun kv => new_block (mkEB b fctx i m0 [] []) t les content
+                                      (make_child i iname (fst kv) (snd kv)) m false) (elements fv))
+      else new_block (mkEB b fctx i m0 [] []) t les content (make_child i iname dyn_val dyn_val) m true
+  end.
+Proof. intro H. cbn [expand_block1 eb_hblocks existsb eb_iter]. rewrite H. reflexivity. Qed.
+
+(* decodeSpec succeeds on a for_each, marked or not, whose unmarked value is iterable or
+   of the dynamic type and not null *)
+Lemma decode_spec_gen eb n t fe it les v ds :
+  value (eb_fctx eb) fe = (v, ds) ->
+  (lenZ les =? n) = true ->
+  has_errors ds = false -> has_unsupported ds = false ->
+  (can_iterate (fst (unmark v)) = true \/ ty_eqb (type_of (fst (unmark v))) TDyn = true) ->
+  is_null (fst (unmark v)) = false ->
+  decode_spec eb n t fe it les = SpecOk v (match it with Some x => x | None => t end).
+Proof.
+  intros Hv Hn He Hu Hc Hnull. unfold decode_spec.
+  rewrite (labels_arg_ok les n Hn), Hv. cbv beta iota.
+  rewrite Hu, He, Hnull, Hn.
+  destruct Hc as [Hc|Hc]; rewrite Hc; [reflexivity|].
+  destruct (can_iterate (fst (unmark v))); reflexivity.
+Qed.
+
+Lemma not_known_unk v : is_known v = false -> exists t r, fst (unmark v) = VUnk t r.
+Proof. unfold is_known. destruct (fst (unmark v)); try discriminate. eauto. Qed.
+
+Lemma is_known_unmarked v :
+  is_marked (fst (unmark v)) = false -> is_known (fst (unmark v)) = is_known v.
+Proof. intro H. unfold is_known at 1. rewrite (unmark_unmarked _ H). reflexivity. Qed.
+Lemma is_null_unmarked v :
+  is_marked (fst (unmark v)) = false -> is_null (fst (unmark v)) = is_null v.
+Proof. intro H. unfold is_null at 1. rewrite (unmark_unmarked _ H). reflexivity. Qed.
+
+Lemma unknown_item s b fctx i m0 t fe it les content n v ds ls :
+  afind t (s_blocks s) = Some n ->
+  (lenZ les =? n) = true ->
+  value fctx fe = (v, ds) ->
+  has_errors ds = false -> has_unsupported ds = false ->
+  is_known v = false ->
+  (can_iterate (fst (unmark v)) = true \/ ty_eqb (type_of (fst (unmark v))) TDyn = true) ->
+  eval_labels (iter_ctx (Some (make_child i (match it with Some x => x | None => t end) dyn_val dyn_val)) fctx) les
+    = LOk ls ->
+  expand_block1 (mkEB b fctx i m0 [] []) s false (DDynamic t fe it les content) =
+  ([mkXB t ls (XU (XE (expand_child (mkEB b fctx i m0 [] []) content
+                         (Some (make_child i (match it with Some x => x | None => t end) dyn_val dyn_val))
+                         (snd (unmark v)))) (snd (unmark v)))], false, false).
+Proof.
+  intros Hf Hn Hv He Hu Hk Hc Hl.
+  destruct (not_known_unk v Hk) as (t0 & r0 & Eu).
+  rewrite (expand_block1_dyn _ _ _ _ _ _ _ _ _ _ n Hf).
+  rewrite (decode_spec_gen (mkEB b fctx i m0 [] []) n t fe it les v ds Hv Hn He Hu Hc) by (rewrite Eu; reflexivity).
+  destruct (unmark v) as [fv m] eqn:Eum. cbn [fst snd] in *. subst fv.
+  change (is_known (VUnk t0 r0)) with false. cbv iota.
+  unfold new_block. cbn [eb_fctx]. rewrite Hl. reflexivity.
+Qed.
+
+Lemma new_blocks_concat eb t les content i iname m (lbls : val * val -> list (list Z)) els :
+  (forall kv, In kv els ->
+     eval_labels (iter_ctx (Some (make_child i iname (fst kv) (snd kv))) (eb_fctx eb)) les = LOk (lbls kv)) ->
+  xres_concat (map (fun kv => new_block eb t les content (make_child i iname (fst kv) (snd kv)) m false) els) =
+  (map (fun kv => mkXB t (lbls kv) (XE (expand_child eb content (Some (make_child i iname (fst kv) (snd kv))) m))) els,
+   false, false).
+Proof.
+  induction els as [|kv r IH]; intro H; [reflexivity|].
+  cbn [map]. rewrite xres_concat_cons, IH by (intros; apply H; right; assumption).
+  unfold new_block. rewrite (H kv (or_introl eq_refl)). reflexivity.
+Qed.
+
+Lemma known_item s b fctx i m0 t fe it les content n v ds (lbls : val * val -> list (list Z)) :
+  afind t (s_blocks s) = Some n ->
+  (lenZ les =? n) = true ->
+  value fctx fe = (v, ds) ->
+  has_errors ds = false -> has_unsupported ds = false ->
+  is_known v = true -> is_null v = false -> can_iterate (fst (unmark v)) = true ->
+  is_marked (fst (unmark v)) = false ->
+  (forall kv, In kv (elements (fst (unmark v))) ->
+     eval_labels (iter_ctx (Some (make_child i (match it with Some x => x | None => t end) (fst kv) (snd kv))) fctx) les
+       = LOk (lbls kv)) ->
+  expand_block1 (mkEB b fctx i m0 [] []) s false (DDynamic t fe it les content) =
+  (map (fun kv => mkXB t (lbls kv)
+                    (XE (expand_child (mkEB b fctx i m0 [] []) content
+                           (Some (make_child i (match it with Some x => x | None => t end) (fst kv) (snd kv)))
+                           (snd (unmark v)))))
+       (elements (fst (unmark v))), false, false).
+Proof.
+  intros Hf Hn Hv He Hu Hk Hnull Hc Hwf Hl.
+  rewrite (expand_block1_dyn _ _ _ _ _ _ _ _ _ _ n Hf).
+  rewrite (decode_spec_gen (mkEB b fctx i m0 [] []) n t fe it les v ds Hv Hn He Hu (or_introl Hc))
+    by (rewrite is_null_unmarked by exact Hwf; exact Hnull).
+  rewrite <- (is_known_unmarked v Hwf) in Hk.
+  destruct (unmark v) as [fv m] eqn:Eum. cbn [fst snd] in *.
+  rewrite Hk. apply new_blocks_concat. exact Hl.
+Qed.
 
 (* ---- unknown for_each ------------------------------------------------------------------ *)
 (* A dynamic block whose for_each is unknown (of an iterable or of the dynamic type,
@@ -48,7 +161,21 @@ Theorem unknown_for_each_single_unknown_block :
     /\ xb_unknown ub = true
     /\ (forall s' rho a, In a (xc_attrs (xb_content s' ub)) -> xvalue rho (snd a) = (with_marks dyn_val m, []))
     /\ (forall s' blk, In blk (xc_blocks (xb_content s' ub)) -> xb_unknown (xb_body blk) = true).
-Proof. Admitted.
+Proof.
+  intros s pre post fctx i m0 t fe it les content n v ds ls Hf Hn Hv He Hu Hk Hc. cbv zeta.
+  intro Hl. unfold fresh.
+  pose proof (unknown_item s (pre ++ DDynamic t fe it les content :: post) fctx i m0 t fe it les content
+                n v ds ls Hf Hn Hv He Hu Hk Hc Hl) as HX.
+  split; [|split; [|split; [|split]]].
+  - rewrite content_blocks_by_item. cbn [eb_orig]. rewrite flat_map_app. cbn [flat_map].
+    f_equal. f_equal. unfold item_blocks at 1. rewrite native_ok_dyn, HX. reflexivity.
+  - unfold item_err. rewrite native_ok_dyn, HX. reflexivity.
+  - reflexivity.
+  - intros s' rho a Ha. cbn [xb_content fixup_content xc_attrs] in Ha. unfold fixup_attrs in Ha.
+    apply in_map_iff in Ha as (a0 & <- & _). reflexivity.
+  - intros s' blk Hb. cbn [xb_content fixup_content xc_blocks] in Hb.
+    apply in_map_iff in Hb as (b0 & <- & _). reflexivity.
+Qed.
 
 (* ---- empty for_each --------------------------------------------------------------------- *)
 Theorem empty_for_each_no_blocks :
@@ -58,11 +185,18 @@ Theorem empty_for_each_no_blocks :
     value fctx fe = (v, ds) ->
     has_errors ds = false -> has_unsupported ds = false ->
     is_known v = true -> is_null v = false -> can_iterate (fst (unmark v)) = true ->
+    is_marked (fst (unmark v)) = false ->
     elements (fst (unmark v)) = [] ->
     let eb := fresh b fctx i m0 in
     item_blocks eb s (DDynamic t fe it les content) = []
     /\ item_err eb s (DDynamic t fe it les content) = false.
-Proof. Admitted.
+Proof.
+  intros s b fctx i m0 t fe it les content n v ds Hf Hn Hv He Hu Hk Hnull Hc Hwf Hel. cbv zeta.
+  unfold fresh, item_blocks, item_err. rewrite native_ok_dyn.
+  rewrite (known_item s b fctx i m0 t fe it les content n v ds (fun _ => []) Hf Hn Hv He Hu Hk Hnull Hc Hwf)
+    by (rewrite Hel; intros kv []).
+  rewrite Hel. split; reflexivity.
+Qed.
 
 (* ---- iteration order ---------------------------------------------------------------------- *)
 (* One block per element, in the order of go-cty's ElementIterator, each with the
@@ -74,6 +208,7 @@ Theorem iteration_order :
     value fctx fe = (v, ds) ->
     has_errors ds = false -> has_unsupported ds = false ->
     is_known v = true -> is_null v = false -> can_iterate (fst (unmark v)) = true ->
+    is_marked (fst (unmark v)) = false ->
     let eb := fresh b fctx i m0 in
     let iname := match it with Some x => x | None => t end in
     let m := snd (unmark v) in
@@ -86,35 +221,54 @@ Theorem iteration_order :
       map (fun kv => mkXB t (lbls kv) (XE (expand_child eb content (Some (child kv)) m)))
           (elements (fst (unmark v)))
     /\ item_err eb s (DDynamic t fe it les content) = false.
-Proof. Admitted.
+Proof.
+  intros s b fctx i m0 t fe it les content n v ds Hf Hn Hv He Hu Hk Hnull Hc Hwf. cbv zeta.
+  intros lbls Hl.
+  unfold fresh, item_blocks, item_err. rewrite native_ok_dyn.
+  rewrite (known_item s b fctx i m0 t fe it les content n v ds lbls Hf Hn Hv He Hu Hk Hnull Hc Hwf Hl).
+  split; reflexivity.
+Qed.
 
 (* the order of ElementIterator: lists and tuples by index from 0 ... *)
+Lemma index_from_order l : forall s,
+  map fst (index_from (Z.of_nat s) l) = map (fun k => VNum (nz (Z.of_nat k))) (seq s (length l))
+  /\ map snd (index_from (Z.of_nat s) l) = l.
+Proof.
+  induction l as [|x r IH]; intro s; [split; reflexivity|].
+  cbn [index_from map length seq fst snd].
+  replace (Z.of_nat s + 1) with (Z.of_nat (S s)) by (rewrite Nat2Z.inj_succ; apply Z.add_1_r).
+  destruct (IH (S s)) as [I1 I2]. rewrite I1, I2. split; reflexivity.
+Qed.
 Lemma elements_list_order t l :
   map fst (elements (VList t l)) = map (fun k => VNum (nz (Z.of_nat k))) (seq 0 (length l))
   /\ map snd (elements (VList t l)) = l.
-Proof. Admitted.
+Proof. exact (index_from_order l O). Qed.
 Lemma elements_tuple_order l :
   map fst (elements (VTuple l)) = map (fun k => VNum (nz (Z.of_nat k))) (seq 0 (length l))
   /\ map snd (elements (VTuple l)) = l.
-Proof. Admitted.
+Proof. exact (index_from_order l O). Qed.
 (* ... maps and objects in the order of their (sorted) key list ... *)
 Lemma elements_map_order t l :
   map fst (elements (VMap t l)) = map (fun p => VStr (fst p)) l /\ map snd (elements (VMap t l)) = map snd l.
-Proof. Admitted.
+Proof. cbn [elements]. rewrite !map_map. split; reflexivity. Qed.
 Lemma elements_obj_order l :
   map fst (elements (VObj l)) = map (fun p => VStr (fst p)) l /\ map snd (elements (VObj l)) = map snd l.
-Proof. Admitted.
+Proof. cbn [elements]. rewrite !map_map. split; reflexivity. Qed.
 (* ... sets in the order given (go-cty's set order, passed in by the harness), key = value *)
 Lemma elements_set_order t l :
   map fst (elements (VSet t l)) = l /\ map snd (elements (VSet t l)) = l.
-Proof. Admitted.
+Proof. cbn [elements]. rewrite !map_map. cbn [fst snd]. rewrite map_id. split; reflexivity. Qed.
 
 (* ---- iterator scoping ------------------------------------------------------------------------ *)
 (* Everything a generated block's body exposes is wrapped with the block's iteration *)
 Lemma content_attrs_wrapped s b fctx it m a :
   In a (xc_attrs (eb_content s (fresh b fctx (Some it) m))) ->
   exists e, snd a = XWrap e (Some it) m.
-Proof. Admitted.
+Proof.
+  rewrite eb_content_attrs. unfold fresh, prepare_attributes.
+  cbn [eb_hattrs eb_iter eb_marks is_nil is_none andb str_mem existsb].
+  intro H. apply in_flat_map in H as (r & _ & [<-|[]]). eexists. reflexivity.
+Qed.
 
 (* what a name means inside content under the nesting stack st (innermost first): the
    innermost iterator of that name as object{key, value}; any other name is looked up
@@ -125,7 +279,34 @@ Theorem iterator_scoping_lookup st rho x :
   | Some o => (Some o, true)
   | None => lookup_var rho x (nonempty st)
   end.
-Proof. Admitted.
+Proof. exact (lookup_iter_ctx st rho x false). Qed.
+
+Lemma lookup_var_fst_flag c x : forall b b', fst (lookup_var c x b) = fst (lookup_var c x b').
+Proof.
+  induction c as [|f r IH]; intros b b'; [reflexivity|].
+  cbn [lookup_var]. destruct (fvars f) as [vs|]; [|apply IH].
+  destruct (assoc_get x vs); [reflexivity|apply IH].
+Qed.
+
+Lemma value_scope_trav c n steps : value c (EScopeTrav n steps) = traverse_abs c n steps.
+Proof. reflexivity. Qed.
+
+Lemma xvalue_wrap_iter rho st b e m :
+  xvalue rho (XWrap e (iter_of (b :: st)) m) =
+  let '(v, ds) := value (iter_ctx (iter_of (b :: st)) rho) e in (with_marks v m, ds).
+Proof. reflexivity. Qed.
+
+Lemma get_attr_key k v : get_attr (iter_object k v) s_key = (k, []).
+Proof. reflexivity. Qed.
+Lemma get_attr_value k v : get_attr (iter_object k v) s_value = (v, []).
+Proof. reflexivity. Qed.
+
+Lemma traverse_own st rho n k v steps :
+  traverse_abs (iter_ctx (iter_of (mkIB n k v :: st)) rho) n steps = traverse_rel steps (iter_object k v) [].
+Proof.
+  unfold traverse_abs. rewrite lookup_iter_ctx. cbn [stack_find ib_name ib_key ib_value].
+  rewrite str_eqb_refl. reflexivity.
+Qed.
 
 Theorem iterator_scoping :
   (* (1) the iterator name resolves to {key, value}, whatever is outside — in particular
@@ -142,7 +323,19 @@ Theorem iterator_scoping :
   /\ (forall st rho x,
         stack_find x st = None ->
         fst (lookup_var (iter_ctx (iter_of st) rho) x false) = fst (lookup_var rho x false)).
-Proof. Admitted.
+Proof.
+  split; [|split].
+  - intros st rho n k v m. repeat split.
+    + rewrite xvalue_wrap_iter, value_scope_trav, traverse_own. reflexivity.
+    + rewrite xvalue_wrap_iter, value_scope_trav, traverse_own.
+      cbn [traverse_rel]. rewrite get_attr_key. reflexivity.
+    + rewrite xvalue_wrap_iter, value_scope_trav, traverse_own.
+      cbn [traverse_rel]. rewrite get_attr_value. reflexivity.
+  - intros st rho n k v x o m Hx Ho.
+    rewrite xvalue_wrap_iter, value_scope_trav. unfold traverse_abs.
+    rewrite lookup_iter_ctx. cbn [stack_find ib_name]. rewrite Hx, Ho. reflexivity.
+  - intros st rho x Hx. rewrite lookup_iter_ctx, Hx. apply lookup_var_fst_flag.
+Qed.
 
 (* ---- marks --------------------------------------------------------------------------------------- *)
 (* The attributes directly in the content of a block generated from a marked for_each
@@ -151,7 +344,11 @@ Theorem generated_block_marks :
   forall s b fctx it m a rho,
     In a (xc_attrs (eb_content s (fresh b fctx (Some it) m))) ->
     exists v, fst (xvalue rho (snd a)) = with_marks v m.
-Proof. Admitted.
+Proof.
+  intros s b fctx it m a rho H.
+  destruct (content_attrs_wrapped s b fctx it m a H) as [e ->].
+  cbn [xvalue]. destruct (value (iter_ctx (Some it) rho) e) as [v ds]. exists v. reflexivity.
+Qed.
 
 (* ---- findings: false of the faithful model ------------------------------------------------------- *)
 Definition m1 : marks := [1].
@@ -162,6 +359,13 @@ Definition str_x : list Z := [120].
 
 (* §9 #18: a static block nested in the content of a generated block does not inherit the
    for_each marks: neither its body's value marks nor its attribute values have them. *)
+(* the witness: content of a block generated from a for_each marked m1, at the element x,
+   containing the static block  b { x = "x" } *)
+Definition sc_eb : ebody := mkEB [] [] (Some (mkIter str_a (VStr str_x) (VStr str_x) [])) m1 [] [].
+Definition sc_s : schema1 := mkSchema [] [(str_b, 0)].
+Definition sc_body : dbody := [DAttr str_x (ELit (VStr str_x))].
+Definition sc_blk : xblock := mkXB str_b [] (XE (expand_child sc_eb sc_body (eb_iter sc_eb) [])).
+
 Definition static_child_inherits_marks : Prop :=
   forall eb s t ls body blk,
     In blk (item_blocks eb s (DBlock t ls body)) -> xb_marks (xb_body blk) = eb_marks eb.
@@ -172,7 +376,16 @@ Theorem static_child_inherits_marks_refuted :
     /\ xb_marks (xb_body blk) = []
     /\ map (fun a => fst (xvalue rho (snd a)))
            (xc_attrs (xb_content (mkSchema [(str_x, false)] []) (xb_body blk))) = [VStr str_x].
-Proof. Admitted.
+Proof.
+  exists sc_eb, sc_s, str_b, [], sc_body, sc_blk, [].
+  split; [left; reflexivity|]. repeat split; vm_compute; reflexivity.
+Qed.
+
+Theorem static_child_inherits_marks_false : ~ static_child_inherits_marks.
+Proof.
+  intro H. specialize (H sc_eb sc_s str_b [] sc_body sc_blk (or_introl eq_refl)).
+  vm_compute in H. discriminate H.
+Qed.
 
 (* §9 #9: a marked EMPTY for_each leaves no trace: what the expanded body exposes is the
    same as with the unmarked empty collection. *)
@@ -182,7 +395,13 @@ Theorem marked_empty_for_each_leaves_trace_refuted :
     /\ c' = [mkFrame (Some [(str_l, VList TStr [])]) None]
     /\ b = [DDynamic str_b (EScopeTrav str_l []) None [] [DAttr str_a (ELit (VStr str_x))]]
     /\ observe_x S rho (Expand b c) = observe_x S rho (Expand b c').
-Proof. Admitted.
+Proof.
+  exists [DDynamic str_b (EScopeTrav str_l []) None [] [DAttr str_a (ELit (VStr str_x))]],
+         (Sch [] [(str_b, 0, Sch [(str_a, false)] [])]), [],
+         [mkFrame (Some [(str_l, VMark m1 (VList TStr []))]) None],
+         [mkFrame (Some [(str_l, VList TStr [])]) None].
+  split; [reflexivity|split; [reflexivity|split; [reflexivity|vm_compute; reflexivity]]].
+Qed.
 
 (* §9 #10: the remaining body returned by PartialContent forgets valueMarks: an attribute
    left for the second step evaluates unmarked, whereas Content in one step marks it. *)
@@ -193,24 +412,100 @@ Theorem partial_remain_keeps_marks_refuted :
     /\ map (fun a => fst (xvalue rho (snd a))) (xc_attrs (eb_content s2 eb)) = [VMark m1 (VStr str_x)]
     /\ map (fun a => fst (xvalue rho (snd a)))
            (xc_attrs (eb_content s2 (snd (eb_partial_content s1' eb)))) = [VStr str_x].
-Proof. Admitted.
+Proof.
+  exists (mkEB [DAttr str_a (ELit (VStr str_x))] [] None m1 [] []),
+         (mkSchema [] []), (mkSchema [(str_a, false)] []), [].
+  split; [reflexivity|split; [reflexivity|split; vm_compute; reflexivity]].
+Qed.
 
-(* NEW: a generated block whose body is read with JustAttributes (hcldec.BlockAttrsSpec)
-   exposes the original expressions: the iterator is not bound. *)
-Theorem just_attributes_sees_iterator_refuted :
+(* A generated block whose body is read with JustAttributes (hcldec.BlockAttrsSpec): since
+   the fix "JustAttributes inside dynamic block content must see the block's iterator" the
+   attributes are wrapped like those Content exposes (before it, the original expressions
+   were exposed and `b.value` below was an unknown variable). *)
+Lemma just_attrs_wrapped b fctx it m a :
+  In a (fst (eb_just_attributes (fresh b fctx (Some it) m))) ->
+  exists e, snd a = XWrap e (Some it) m.
+Proof.
+  unfold eb_just_attributes, fresh, prepare_attributes.
+  cbn [fst eb_orig eb_hattrs eb_iter eb_marks is_nil is_none andb str_mem existsb].
+  intro H. apply in_flat_map in H as [x [_ Hx]]. destruct Hx as [<-|[]]. eexists. reflexivity.
+Qed.
+
+Example just_attributes_sees_iterator :
   exists b c S rho,
     clean (unroll b c) = true
     /\ b = [DDynamic str_b (EScopeTrav str_l []) None [] [DAttr str_a (EScopeTrav str_b [SAttr s_value])]]
     /\ S = Sch [] [(str_b, 0, SJust)]
     /\ observe_u S rho (unroll b c) =
          ONode false [] [(str_b, [], ONode false [(str_a, (VStr str_x, []))] [] [] false false)] [] false false
-    /\ observe_x S rho (Expand b c) =
-         ONode false [] [(str_b, [], ONode false [(str_a, (dyn_val, [derr S_UnknownVar [FStr str_b []]]))] [] [] false false)] [] false false.
-Proof. Admitted.
+    /\ observe_x S rho (Expand b c) = observe_u S rho (unroll b c).
+Proof.
+  exists [DDynamic str_b (EScopeTrav str_l []) None [] [DAttr str_a (EScopeTrav str_b [SAttr s_value])]],
+         [mkFrame (Some [(str_l, VList TStr [VStr str_x])]) None],
+         (Sch [] [(str_b, 0, SJust)]),
+         [mkFrame (Some []) None].
+  split; [vm_compute; reflexivity|split; [reflexivity|split; [reflexivity|split; vm_compute; reflexivity]]].
+Qed.
 
 (* NEW (benign): a dynamic block of a type the schema does not ask for is reported even
    when it generates nothing, so [conforms] cannot be dropped from expand_equals_unroll. *)
 Theorem expand_equals_unroll_without_conforms_refuted :
   exists b c S rho,
     clean (unroll b c) = true /\ observe_x S rho (Expand b c) <> observe_u S rho (unroll b c).
-Proof. Admitted.
+Proof.
+  exists [DDynamic str_b (ELit (VList TStr [])) None [] []], [], (Sch [] []), [].
+  split; [vm_compute; reflexivity|]. intro H. vm_compute in H. discriminate H.
+Qed.
+
+(* ---- the hypothesis added to empty_for_each_no_blocks and iteration_order is needed ------------- *)
+(* [val] does not enforce that the value under a VMark is not itself a VMark; on such a
+   value is_known / is_null look under one mark only while decodeSpec and expandBlocks
+   ask them of the once-unmarked value.  A literal is enough to produce one. *)
+Example known_for_each_needs_single_mark_blocks :
+  exists s b fctx i m0 t fe it les content n v ds,
+    afind t (s_blocks s) = Some n /\ (lenZ les =? n) = true /\ value fctx fe = (v, ds)
+    /\ has_errors ds = false /\ has_unsupported ds = false
+    /\ is_known v = true /\ is_null v = false /\ can_iterate (fst (unmark v)) = true
+    /\ elements (fst (unmark v)) = []
+    /\ item_blocks (fresh b fctx i m0) s (DDynamic t fe it les content) <> [].
+Proof.
+  exists (mkSchema [] [(str_b, 0)]), [], [], None, [], str_b,
+         (ELit (VMark [1] (VMark [2] (VUnk (TList TStr) rf_none)))), None, [], [], 0,
+         (VMark [1] (VMark [2] (VUnk (TList TStr) rf_none))), [].
+  repeat (split; [reflexivity|]). intro H. vm_compute in H. discriminate H.
+Qed.
+Example known_for_each_needs_single_mark_err :
+  exists s b fctx i m0 t fe it les content n v ds,
+    afind t (s_blocks s) = Some n /\ (lenZ les =? n) = true /\ value fctx fe = (v, ds)
+    /\ has_errors ds = false /\ has_unsupported ds = false
+    /\ is_known v = true /\ is_null v = false /\ can_iterate (fst (unmark v)) = true
+    /\ elements (fst (unmark v)) = []
+    /\ item_err (fresh b fctx i m0) s (DDynamic t fe it les content) = true.
+Proof.
+  exists (mkSchema [] [(str_b, 0)]), [], [], None, [], str_b,
+         (ELit (VMark [1] (VMark [2] (VNull (TList TStr))))), None, [], [], 0,
+         (VMark [1] (VMark [2] (VNull (TList TStr)))), [].
+  repeat (split; [reflexivity|]). vm_compute. reflexivity.
+Qed.
+
+Print Assumptions content_blocks_by_item.
+Print Assumptions unknown_for_each_single_unknown_block.
+Print Assumptions empty_for_each_no_blocks.
+Print Assumptions iteration_order.
+Print Assumptions elements_list_order.
+Print Assumptions elements_tuple_order.
+Print Assumptions elements_map_order.
+Print Assumptions elements_obj_order.
+Print Assumptions elements_set_order.
+Print Assumptions content_attrs_wrapped.
+Print Assumptions iterator_scoping_lookup.
+Print Assumptions iterator_scoping.
+Print Assumptions generated_block_marks.
+Print Assumptions static_child_inherits_marks_refuted.
+Print Assumptions static_child_inherits_marks_false.
+Print Assumptions marked_empty_for_each_leaves_trace_refuted.
+Print Assumptions partial_remain_keeps_marks_refuted.
+Print Assumptions just_attributes_sees_iterator.
+Print Assumptions expand_equals_unroll_without_conforms_refuted.
+Print Assumptions known_for_each_needs_single_mark_blocks.
+Print Assumptions known_for_each_needs_single_mark_err.
